@@ -78,7 +78,7 @@ META["C15"] = {
 
 META["C09"] = {
     "text": "Bounded symbolic model checking of the real GetPegNetRateAverages (both closures, numberMissing) with SelectRates / SelectMostRecentRatesBeforeHeight over a symbolic rate table: a daemon that lives through the whole chain and a daemon restarted right before ANY rated block obtain the same averages for every asset, for every rated/unrated pattern and all rate values within the bounds. Restart chain: three blocks with content (conversions held over an unrated block - no OPR/SPR entry block, or winner-less ones) through the real SyncBlock, the daemon replaced at any subset of the boundaries by a freshly started one that runs the real createTables+migrations and reloads its state from the database: identical ledgers. Found D4 (count-trimmed cache vs height-window reload), repaired by a fix: commit.",
-    "note": "reduced averaging period (P=3 quick, 4 thorough; mainnet 288, code uniform in P), 6-9 heights, 2 assets; the claim that no other in-memory state influences results rests on reading SyncBlock (all other inputs go through SQL)",
+    "note": "reduced averaging period (P=3 quick, 4 thorough; mainnet 288, code uniform in P), 6-9 heights, 2 assets (the second appearing later, or quoted from the start and then left out of the rates of 1-2 consecutive heights); the claim that no other in-memory state influences results rests on reading SyncBlock (all other inputs go through SQL)",
     "design_ref": "DESIGN.md §7 C09",
 }
 
